@@ -27,7 +27,8 @@ Shapes ==
       /\ (sh.srkSet = 0 => sh.used = 0 /\ sh.revoke = 0)
       /\ (sh.enc => ~sh.ext)
       /\ (sh.revoke # 0 => ~sh.pre /\ sh.nImg = 1 /\ ~sh.enc /\ ~sh.ext)         \* the revoking pairs on the plainest shape
-      /\ (~Full /\ sh.revoke # 0 => sh.cver = 1 /\ sh.kt = "ecc256") }              \* quick: all 64 pairs for one key type
+      /\ (~Full /\ sh.revoke # 0 => sh.cver = 1 /\ sh.kt = "ecc256")                \* quick: all 64 pairs for one key type
+      /\ (~Full /\ sh.cver = 2 => sh.kt \in {"none", "ecc256"}) }
 
 (* ---- the documented layout *)
 Al(cver, n) == IF cver = 2 THEN n ELSE ((n + 7) \div 8) * 8
